@@ -9,7 +9,7 @@
 From Coq Require Import List String Ascii.
 From PC Require Import Base.Codes Comp.Syntax Comp.Compile Comp.Denote Comp.EmitProofs Comp.DummyProofs
   Design.Designer Design.Results Design.ResultsProofs Design.CrossProofs Design.EndToEnd Finish.Apply
-  Base.Sexp Comp.WfPil Comp.NameProofs Sys.System Sys.SysWfPil Sys.SysNames Sys.SysDesign Design.EndToEndNames.
+  Base.Sexp Comp.WfPil Comp.NameProofs Sys.System Sys.SysWfPil Sys.SysNames Sys.SysDesign Design.EndToEndNames Sys.SysFixed.
 Import ListNotations.
 
 Theorem C14_flat_ignores_dummy : forall c l1 x l2, base_len (c_bases c) (fst x) = 0 ->
@@ -114,3 +114,13 @@ Theorem C14_system_finisher_accepts_unconditional : forall fs includes ctr basen
          exists a recs, process_results p lay nts = OK a /\ output_records p a = OK recs /\ exists f, apply_obj 12 (table_of recs) o = OK f).
 Proof. exact compiled_system_end_to_end_names. Qed.
 Print Assumptions C14_system_finisher_accepts_unconditional.
+
+(* with a fixed-sequence file as well: zero-length members or not, the fixed system still loads and gets arrays *)
+Theorem C14_fixed_system_designer_accepts : forall fs includes ctr basename args fixed lines ctr',
+  compile_top fs includes ctr basename args fixed = OK (lines, ctr') ->
+  (forall o, load_file fs includes 12 ctr basename args "" "." = OK (o, ctr') -> names_ok 12 o) ->
+  (forall n k len, In (PSeq n k len) lines -> valid_template k = true) ->
+  wf_pil lines = true /\ (exists p, load_spec lines pspec0 = OK p) /\
+  (design_arrays lines false = DOver \/ exists e w s, design_arrays lines false = DOk e w s).
+Proof. exact fixed_system_designs. Qed.
+Print Assumptions C14_fixed_system_designer_accepts.
